@@ -44,7 +44,7 @@ theorem masks_of_cov {s : St} {snap : Tag} {id : Nat} (h : Cov s snap id) : mask
 theorem publish_pending (s : St) (name : String) (result : List Nat) (st : Started) (T g : Truth)
     (hg : Good s T g) (snap ot : Tag) (held : List Nat)
     (hj : s.jTag = some (name, snap, held)) (hot : sget s.tags name = some ot) (hd : ot.defn = snap.defn)
-    (id : Nat) (hid : id < s.next) (hc : Cov s snap id) :
+    (hgn : ot.gen = snap.gen) (id : Nat) (hid : id < s.next) (hc : Cov s snap id) :
     ∀ t', sget (step s (.tagDone name result) st).1.tags name = some t' → id ∈ t'.unc := by
   have hr := hg.reach
   have hw := hr.tagsWF
@@ -55,7 +55,7 @@ theorem publish_pending (s : St) (name : String) (result : List Nat) (st : Start
     · exact h1 h.1
     · exact h1 h.2.1
     · exact h1 h.2.2
-  obtain ⟨s1, htags, _, _, h1all, h1tags⟩ := tagDone_via s name result st snap ot held hj hot hd hm
+  obtain ⟨s1, htags, _, _, h1all, h1tags⟩ := tagDone_via s name result st snap ot held hj hot hd hgn hm
   have hrefs := hr.factsOK.1 name snap held ot hj hot hd
   let X := tdTag snap ot (ofList result)
   have hget : ∀ n, sget s1.tags n =
@@ -163,21 +163,21 @@ theorem inv_tagDone (s : St) (name : String) (result : List Nat) (st : Started) 
   · intro n hE t' h' id hid hnu
     have hn : name = n := hE
     subst hn
-    by_cases hlive : ∃ ot, sget s.tags name = some ot ∧ ot.defn = snap.defn
-    · obtain ⟨ot, hot, hd⟩ := hlive
+    by_cases hlive : ∃ ot, sget s.tags name = some ot ∧ ot.defn = snap.defn ∧ ot.gen = snap.gen
+    · obtain ⟨ot, hot, hd, hgn⟩ := hlive
       rw [hs name ot hot id hid]
-      rw [step_tagDone_mat s st name snap ot held result hj hot hd t' h', mem_pub snap (g name) result hres id]
+      rw [step_tagDone_mat s st name snap ot held result hj hot hd hgn t' h', mem_pub snap (g name) result hres id]
       have hT : T name id = Ans snap (g name) id := by
         apply Classical.byContradiction
         intro hne
         have hcov : Cov s snap id := by
-          rcases hg.job name snap held ot hj hot hd with h1 | ⟨_, _, h1⟩
+          rcases hg.job name snap held name ot hj hot hgn hd with h1 | ⟨_, h1⟩
           · exact Or.inl (h1 id hid)
           · exact h1 id hid hne
-        exact hnu (publish_pending s name result st T g hg snap ot held hj hot hd id hid hcov t' h')
+        exact hnu (publish_pending s name result st T g hg snap ot held hj hot hd hgn id hid hcov t' h')
       rw [hT]
-    · have hdead : ∀ ot, sget s.tags name = some ot → ot.defn ≠ snap.defn :=
-        fun ot h1 h2 => hlive ⟨ot, h1, h2⟩
+    · have hdead : ∀ ot, sget s.tags name = some ot → ¬ (ot.defn = snap.defn ∧ ot.gen = snap.gen) :=
+        fun ot h1 h2 => hlive ⟨ot, h1, h2.1, h2.2⟩
       obtain ⟨htags, _, _⟩ := tagDone_dead s name result st snap held hj hdead
       rw [htags] at h'
       rw [hs name t' h' id hid]
